@@ -34,6 +34,8 @@ func propC07(c *Ctx) {
 	c.ruleNoRewrap()
 	c.ruleErrorOnOwnDirective("C07-ERROR-ON-OWN-DIRECTIVE")
 	c.ruleBlamedType("C07-BLAMED-TYPE")
+	c.ruleTraceRecorder("C07-TRACE-RECORDER")
+	c.ruleBorrowedSliceReadOnly("C07-BORROWED-SLICE-READ-ONLY")
 	c.ruleMemoKey()
 	// line numbers are counted in the file's bytes: nothing may rewrite them in place (a normaliser that works on the
 	// slice it was given shifts every later line)
@@ -351,6 +353,18 @@ func (c *Ctx) rulePhaseConstructor() {
 	r := c.R
 	r.Rule("C07-PHASE-CONSTRUCTOR", "functions reachable from compileCore, buildCatalog, compileCatalog and validateCatalog (when core.scanner is the root scanner again) build errors only through Directive.makeError (KeywordError/BodyError/...), never through core.japiError or jerr.NewJApiError directly: otherwise the error names the root file and carries no include trace", 5)
 	roots := c.ssaRoots("core:JApiCore.compileCore", "core:JApiCore.buildCatalog", "core:JApiCore.compileCatalog", "core:JApiCore.validateCatalog")
+	// buildCatalog calls the per-directive handlers through the dispatch table, which the constructor of the core fills:
+	// the handlers are roots of their own
+	nHandlers := 0
+	for _, h := range c.dispatchTable() {
+		if sf := c.P.SSAFunc(h); sf != nil {
+			roots = append(roots, sf)
+			nHandlers++
+		}
+	}
+	if nHandlers < 10 {
+		r.Undecided("C07-PHASE-CONSTRUCTOR", "handlers", fmt.Sprintf("only %d handlers of the dispatch table found", nHandlers), "")
+	}
 	reach := reachDecls(c.reachableLib(roots, nil))
 	newErr := c.P.LookupFunc("jerr", "NewJApiError")
 	jerrFn := c.P.LookupFunc("core", "JApiCore.japiError")
@@ -456,6 +470,88 @@ func (c *Ctx) bodySetEvidence(f *Fn, call *ast.CallExpr) bool {
 	}
 	_, ok = bodySetExceptions[f.Name()]
 	return ok
+}
+
+// ---------- every frame is recorded ----------
+
+// ruleTraceRecorder: the include trace of an error is filled one frame at a time (OccurredInFile is called once per
+// suspended file, innermost first). A recorder that leaves on some path without appending drops a frame: the trace no
+// longer lists exactly the chain that was followed.
+func (c *Ctx) ruleTraceRecorder(rule string) {
+	r := c.R
+	r.Rule(rule, "every function of package jerr that appends to the include trace of an error (a field of jerr.JApiError of slice type that is appended to) does so on every path from its entry to every return, and through no condition on the length of the trace: a frame handed to the recorder is recorded", 1)
+	pk := c.P.Pkg("jerr")
+	if pk == nil {
+		r.Undecided(rule, "anchor", "package jerr not loaded", "")
+		return
+	}
+	n := 0
+	for _, f := range c.libFns() {
+		if f.Pkg != pk {
+			continue
+		}
+		var appends []ast.Node
+		var fldName string
+		ast.Inspect(f.Decl.Body, func(nd ast.Node) bool {
+			as, ok := nd.(*ast.AssignStmt)
+			if !ok || len(as.Lhs) != 1 || len(as.Rhs) != 1 {
+				return true
+			}
+			fld := fieldSel(pk, as.Lhs[0])
+			if fld == nil || c.structOfField(fld) != "jerr.JApiError" {
+				return true
+			}
+			if _, isSl := fld.Type().Underlying().(*types.Slice); !isSl {
+				return true
+			}
+			call, ok := ast.Unparen(as.Rhs[0]).(*ast.CallExpr)
+			if !ok || exprString(call.Fun) != "append" || len(call.Args) < 2 || fieldSel(pk, call.Args[0]) != fld {
+				return true
+			}
+			appends = append(appends, as)
+			fldName = fld.Name()
+			return true
+		})
+		if len(appends) == 0 {
+			continue
+		}
+		n++
+		fc := c.cfgOf(f)
+		key := f.Name() + " | append to " + fldName
+		bad := ""
+		ast.Inspect(f.Decl.Body, func(nd ast.Node) bool {
+			if _, isLit := nd.(*ast.FuncLit); isLit {
+				return false
+			}
+			if ret, ok := nd.(*ast.ReturnStmt); ok && fc.reachesFromEntryAvoiding(ret, appends) {
+				bad = "the return at " + c.pos(ret.Pos()) + " is reached without recording the frame"
+			}
+			return true
+		})
+		// the end of the body
+		if bad == "" && len(f.Decl.Body.List) > 0 {
+			last := f.Decl.Body.List[len(f.Decl.Body.List)-1]
+			if _, isRet := last.(*ast.ReturnStmt); !isRet {
+				isAppend := false
+				for _, a := range appends {
+					if a == ast.Node(last) {
+						isAppend = true
+					}
+				}
+				if !isAppend && fc.reachesFromEntryAvoiding(last, appends) {
+					bad = "the end of the function is reached without recording the frame"
+				}
+			}
+		}
+		if bad == "" {
+			r.Ok(rule, key, "every path through the recorder appends the frame", c.pos(appends[0].Pos()))
+		} else {
+			r.Bad(rule, key, bad+": the include trace of an error lists fewer INCLUDE lines than were followed", c.pos(appends[0].Pos()))
+		}
+	}
+	if n == 0 {
+		r.Undecided(rule, "sites", "no function of package jerr appends to a slice field of JApiError", "")
+	}
 }
 
 // ---------- who constructs ----------
